@@ -14,8 +14,11 @@ for p in $PROPS; do
     ref=""
     for cfg in "16 2" "1 1" "4 4" "16 16" "3 2" "16 2"; do
       set -- $cfg
-      d=$(VERIF_SEED=$s IONSIM_NO_EVIDENCE=1 IONSIM_INDICES=${IDX[$p]} IONSIM_WORKERS=$1 IONSIM_WORKER_GOMAXPROCS=$2 IONSIM_C18_PARTS=A ./bin/ionsim check $p quick 2>&1 | grep '^RUN-DIGEST' | cut -d' ' -f2)
+      out=$(VERIF_SEED=$s IONSIM_NO_EVIDENCE=1 IONSIM_INDICES=${IDX[$p]} IONSIM_WORKERS=$1 IONSIM_WORKER_GOMAXPROCS=$2 IONSIM_C18_PARTS=A ./bin/ionsim check $p quick 2>&1)
+      d=$(echo "$out" | grep '^RUN-DIGEST' | cut -d' ' -f2)
       runs=$((runs+1))
+      # the unchanged tree must not raise an alarm under any seed either
+      if echo "$out" | grep -q '^VIOLATION'; then echo "ALARM prop=$p seed=$s: $(echo "$out" | grep '^VIOLATION' | head -1)"; fail=1; fi
       if [ -z "$d" ]; then echo "NO DIGEST prop=$p seed=$s workers=$1 gomaxprocs=$2"; fail=1; continue; fi
       if [ -z "$ref" ]; then ref=$d; elif [ "$d" != "$ref" ]; then echo "NONDETERMINISM prop=$p seed=$s workers=$1 gomaxprocs=$2: $d != $ref"; fail=1; fi
     done
